@@ -5,9 +5,15 @@ PROPS = {
  "C01": ("exploration", "Per generated grammar: an LR(1) certificate (closure / transition / reduction conditions checked on every state, item and cell of the live automaton) gives completeness for all inputs of that grammar; soundness and completeness are additionally observed per input (valid derivation of exactly the input; accepted <=> Earley member), including every string up to length 4/5 for small alphabets. Grammars are sampled, never 'all grammars'.",
          "Trusted: harness FIRST/nullable, Earley recogniser, derivation validator. Completeness only asserted for conflict-free, precedence-free grammars.",
          "runtime monitoring: invariant check (LR(1) certificate) on the live automaton + reference-model monitor (Earley) over generated inputs", "DESIGN.md §4 C01"),
+ "C02": ("exploration", "Differential against an independent canonical LR(1) construction: every generated LR(1) grammar (8 isomorphic permutations each, biased to LR(1)-not-LALR(1) shapes, many same-core states, and seeds on which Pager re-processes and garbage-collects states) must be conflict-free in the minimised table, use no more states, and parse sampled inputs to the same tree / same first-error lexeme as the canonical parser. lrtable hook counters show how often merges, re-queues and gc actually happened.",
+         "Trusted: the harness's canonical LR(1) construction and parser (refs.rs).",
+         "runtime monitoring: differential reference-model monitor (canonical LR(1) automaton and parser) + hook counters for Pager merge/re-queue/gc events", "DESIGN.md §4 C02"),
  "C03": ("exploration", "Every (state, token) cell of every generated table is re-derived from the closed item sets, the graph edges and the abstract grammar's precedence declarations and compared with action(); the reported conflict lists are compared with the expected default-rule resolutions; CTParserBuilder::build must succeed iff the counts equal %expect/%expect-rr. Exhaustive over cells per generated grammar; grammars are sampled.",
          "Trusted: the harness's precedence model (levels = declaration order, production precedence = %prec else last token) and candidate extraction from item sets. Order of applying the two default rules in shift+multi-reduce cells is accepted either way.",
          "runtime monitoring: reference-model monitor re-deriving every table cell and the conflict lists; real compile-time builds for the %expect gate", "DESIGN.md §4 C03"),
+ "C04": ("exploration", "For every rejected input of every generated conflict-free grammar the reported error lexeme is compared with the first non-viable lexeme computed by an Earley viable-prefix oracle, with recovery off (exactly one error, no value) and with CPCT+ on (first error). Grammars and inputs are sampled; merged-state-heavy grammars included on purpose.",
+         "Trusted: harness Earley recogniser (viable prefixes on the abstract grammar); synthetic lexer span -> lexeme index bijection.",
+         "runtime monitoring: reference-model monitor (Earley viable-prefix oracle) over generated erroneous inputs", "DESIGN.md §4 C04"),
  "C16": ("exploration", "Every state x token x rule of every generated table: state_actions/state_shifts/core_reduces/reduce_only_state/goto vs action() and the graph's edges, reachability of all states, and every closed state vs a reference LR(1) closure of its core. Exhaustive over cells per generated grammar; grammars are sampled.",
          "Trusted: harness FIRST/nullable/closure.",
          "runtime monitoring: invariant checks on the live state graph and table at the quiescent point after construction", "DESIGN.md §4 C16"),
